@@ -108,3 +108,20 @@ def near_threshold_compositions(N):
                 seen.add((diff + minor, minor))
                 seen.add((minor, diff + minor))
     return sorted(seen)
+
+
+def distinct_compositions(rng, count, nmin=10, nmax=30):
+    """`count` distinct (p, n, z) with nmin <= N <= nmax, in a random order."""
+    seen = []
+    got = set()
+    guard = 0
+    while len(seen) < count and guard < 100 * count:
+        guard += 1
+        N = rng.randint(nmin, nmax)
+        p = rng.randint(0, N)
+        n = rng.randint(0, N - p)
+        c = (p, n, N - p - n)
+        if c not in got:
+            got.add(c)
+            seen.append(c)
+    return seen
